@@ -80,4 +80,13 @@ ReadsDoNotWrite ==
        LET e == Graph.edges[node][i] IN
          (node' = e.dst /\ e.ev \in {"get", "mut"}) =>
             \A l \in LocSet : Stored(e.dst, l) = Stored(node, l)]_mvars
+\* histories of different quantities are independent: a call addressed to the other quantity leaves this one's
+\* storage as it is, and calls addressed to this quantity leave the other one's storage (P(n).other) as it is
+OthersIndependent ==
+  [][\A i \in 1..Len(Graph.edges[node]) :
+       LET e == Graph.edges[node][i] IN
+         node' = e.dst =>
+            IF e.ev \in {"oset", "oshift"}
+            THEN \A l \in LocSet : Stored(e.dst, l) = Stored(node, l)
+            ELSE P(e.dst).other = P(node).other]_mvars
 ==============================================================================
